@@ -24,7 +24,10 @@ Emit == status.k # "running" => PrintT("OUTCOME " \o ToJson(Outcome))
 
 MaxSteps == 5000
 \* values stay small (a run that builds huge values is outside this model)
-SizeOk == \A i \in 1 .. Len(heap) : heap[i].k = "list" => Len(heap[i].items) <= 400
+\* (also: the number of cells, scopes, pending frames and printed lines -- a run whose states grow without bound
+\* costs more per step than the whole of an ordinary corpus)
+SizeOk == /\ \A i \in 1 .. Len(heap) : heap[i].k = "list" => Len(heap[i].items) <= 400
+          /\ Len(heap) <= 700 /\ Len(K) <= 350 /\ Len(scopes) <= 1500 /\ Len(out) <= 500
 Fuel == steps < MaxSteps /\ SizeOk
 OutOfFuel == (steps >= MaxSteps - 1 /\ status.k = "running") => PrintT("OUTCOME " \o ToJson([pi |-> pi, out |-> out, status |-> [k |-> "fuel"], steps |-> steps]))
 =============================================================================
